@@ -236,7 +236,11 @@ impl UrlPath {
                 let static_pattern = part.static_pattern.clone().unwrap();
                 // println!("static pattern {:?}", static_pattern);
                 // println!("path {:?}", path);
-                path = path.strip_prefix(static_pattern.as_str()).unwrap().to_string();
+                let boxed_rest = path.strip_prefix(static_pattern.as_str());
+                if boxed_rest.is_none() {
+                    return Err("path does not match the pattern".to_string());
+                }
+                path = boxed_rest.unwrap().to_string();
             } else {
                 // continue, unless the part is last,
                 // if so read to the end of path and add to map
